@@ -304,3 +304,71 @@ class Report:
               "wall_s": round(time.time() - self.t0, 1), "violations": len(self.violations)}
         json.dump(ev, open(os.path.join(EVID, self.pid + ".json"), "w"), indent=1)
         return 1 if self.violations else 0
+
+
+# ----------------------------------------------------------------------------
+# Helpers shared by the per-property checks
+# ----------------------------------------------------------------------------
+def write_ndjson(path, items):
+    with open(path, "w") as f:
+        for s in items:
+            f.write(json.dumps(s) + "\n")
+    return path
+
+
+def export_scenarios(module, cfg, wd, workers=4, timeout=3000, tag="SCN"):
+    ex = tlc(module, cfg, wd, workers=workers, timeout=timeout)
+    if ex.error or ex.violated or ex.rc != 0:
+        log(ex.out[-3000:])
+        raise ToolError(f"scenario export {module}/{cfg} failed")
+    return printed_json(ex, tag), ex
+
+
+def load_runs(trace):
+    """ndjson trace -> {run id: [events]} (events carry 'run')."""
+    runs = {}
+    cur = None
+    for line in open(trace):
+        ev = json.loads(line)
+        cur = ev.get("run", cur)
+        runs.setdefault(cur, []).append(ev)
+    return runs
+
+
+def validate_runs(rep, module, cfg, trace, wd, label, dev_cfgs=None, describe=None, strip=("obs", "laws")):
+    """Validate a multi-run trace; classify failing runs (strict first, then per listed deviation).
+    dev_cfgs: {finding id: cfg name}.  Returns (runs, failing run ids)."""
+    verdicts, done, res = validate(module, cfg, trace, wd)
+    runs = load_runs(trace)
+    rep.cov["traces_validated_against_impl"] += len(runs)
+    rep.cov["evaluations"] += done[0]
+    bad_runs = sorted({v["run"] for v in verdicts})
+    rep.notes.setdefault("validated", []).append(
+        {"source": label, "runs": len(runs), "events": done[0], "rejected_strict": len(bad_runs)})
+    if not bad_runs:
+        return runs, []
+    explained = {}
+    if dev_cfgs:
+        sub = os.path.join(wd, label + "_failing.ndjson")
+        with open(sub, "w") as f:
+            for r in bad_runs:
+                for ev in runs[r]:
+                    f.write(json.dumps(ev) + "\n")
+        for dev, dcfg in dev_cfgs.items():
+            if dev not in rep.known_open:
+                continue
+            v2, _, _ = validate(module, dcfg, sub, wd)
+            still = {v["run"] for v in v2}
+            for r in bad_runs:
+                if r not in still and r not in explained:
+                    explained[r] = dev
+    first = {}
+    for v in verdicts:
+        first.setdefault(v["run"], v)
+    for r in bad_runs:
+        what = first[r].get("what", "rejected")
+        evs = [{k: e[k] for k in e if k not in strip} for e in runs[r]]
+        case = {"source": label, "failed_check": what, "at_event": first[r].get("l"), "events": evs[:400]}
+        fid = explained.get(r) or (first[r].get("v") if first[r].get("v") not in (None, "bad") else None)
+        rep.classify(fid, (describe or "trace rejected: {what}").format(what=what), case, f"{label} run {r}")
+    return runs, bad_runs
